@@ -794,6 +794,12 @@ class FaceCounts(IntGuard):
         for a in range(1, 4):
             for m in range(1, 4):
                 out.append(dict(a=a, b=a, mid=m))
+        # the optional argument may also be a LIST of mid sketches (every form of it is checked the same way)
+        for a in range(1, 4):
+            for m in range(1, 4):
+                out.append(dict(a=a, b=a, mid=[m]))
+                out.append(dict(a=a, b=a, mid=[a, m]))
+                out.append(dict(a=a, b=a, mid=[m, a]))
         return out
 
     def run(self, p):
@@ -805,19 +811,27 @@ class FaceCounts(IntGuard):
 
         def g(n, z):
             return Grid([0, 0, z], [n, 1, z], n, 1)
-        return attempt(lambda: LS(g(p["a"], 0), g(p["b"], 1), None if p["mid"] is None else g(p["mid"], 0.5)))
+        if isinstance(p["mid"], list):
+            mid = [g(m, 0.25 + 0.5 * i / max(1, len(p["mid"]))) for i, m in enumerate(p["mid"])]
+        else:
+            mid = None if p["mid"] is None else g(p["mid"], 0.5)
+        return attempt(lambda: LS(g(p["a"], 0), g(p["b"], 1), mid))
+
+    @staticmethod
+    def mids(p):
+        return [] if p["mid"] is None else (p["mid"] if isinstance(p["mid"], list) else [p["mid"]])
 
     def model(self, p):
         s = "g_face_counts %s %s" % (zlit(p["a"]), zlit(p["b"]))
-        if p["mid"] is not None:
-            s += " || ref_counts_differ %s %s" % (zlit(p["mid"]), zlit(p["a"]))
+        for m in self.mids(p):
+            s += " || ref_counts_differ %s %s" % (zlit(m), zlit(p["a"]))
         return s
 
     def extra_reject(self, p):
-        return p["mid"] is not None and p["mid"] != p["a"]
+        return any(m != p["a"] for m in self.mids(p))
 
     def oracle(self, p):
-        same = p["a"] == p["b"] and (p["mid"] is None or p["mid"] == p["a"])
+        same = p["a"] == p["b"] and all(m == p["a"] for m in self.mids(p))
         return "accept" if same else "reject"
 
 
